@@ -543,95 +543,33 @@ func (m *Model) evalPureHook(fn *ssa.Function, args []constant.Value, resolve fu
 	if fn.Blocks == nil || len(fn.Params) != len(args) {
 		return nil, false
 	}
-	env := map[ssa.Value]constant.Value{}
-	for i, p := range fn.Params {
-		env[p] = args[i]
-	}
-	b := fn.Blocks[0]
-	var prev *ssa.BasicBlock
-	for steps := 0; steps < 500; steps++ {
-		for _, in := range b.Instrs {
-			switch x := in.(type) {
-			case *ssa.Phi:
-				for i, p := range b.Preds {
-					if p == prev {
-						v, ok := m.constOf(x.Edges[i], env)
-						if !ok {
-							return nil, false
-						}
-						env[x] = v
-					}
-				}
-			case *ssa.BinOp:
-				l, ok1 := m.constOf(x.X, env)
-				r, ok2 := m.constOf(x.Y, env)
-				if !ok1 || !ok2 {
-					return nil, false
-				}
-				v, ok := foldBinOp(x.Op, l, r)
-				if !ok {
-					return nil, false
-				}
-				env[x] = v
-			case *ssa.UnOp:
-				if x.Op != token.NOT {
-					if resolve != nil {
-						if v, ok := resolve(x); ok {
-							env[x] = v
-							continue
-						}
-					}
-					if x.Op == token.MUL {
-						continue // an address computation / load that is not needed unless used
-					}
-					return nil, false
-				}
-				v, ok := m.constOf(x.X, env)
-				if !ok {
-					return nil, false
-				}
-				env[x] = constant.MakeBool(!constant.BoolVal(v))
-			case *ssa.FieldAddr, *ssa.Alloc, *ssa.Store:
-			case *ssa.Call:
-				if resolve != nil {
-					if v, ok := resolve(x); ok {
-						env[x] = v
-						continue
-					}
-				}
-				return nil, false
-			case *ssa.Convert:
-				v, ok := m.constOf(x.X, env)
-				if !ok {
-					return nil, false
-				}
-				env[x] = v
-			case *ssa.If:
-				c, ok := m.constOf(x.Cond, env)
-				if !ok {
-					return nil, false
-				}
-				prev = b
-				if constant.BoolVal(c) {
-					b = b.Succs[0]
-				} else {
-					b = b.Succs[1]
-				}
-			case *ssa.Jump:
-				prev = b
-				b = b.Succs[0]
-			case *ssa.Return:
-				if len(x.Results) != 1 {
-					return nil, false
-				}
-				return m.constOf(x.Results[0], env)
-			case *ssa.DebugRef:
-			default:
-				return nil, false
+	ip := &Interp{m: m}
+	if resolve != nil {
+		ip.load = func(v *ssa.UnOp, dirty bool) (any, bool) {
+			if r, ok := resolve(v); ok {
+				return r, true
 			}
+			return nil, false
+		}
+		ip.call = func(c *ssa.Call, _ []any) (any, bool) {
+			if r, ok := resolve(c); ok {
+				return r, true
+			}
+			return nil, false
 		}
 	}
-	return nil, false
+	in := make([]any, len(args))
+	for i, a := range args {
+		if a != nil {
+			in[i] = a
+		}
+	}
+	res, ok := ip.Run(fn, in)
+	rc, isC := res.(constant.Value)
+	if !ok || !isC {
+		return nil, false
+	}
+	return rc, true
 }
 
 func (m *Model) constOf(v ssa.Value, env map[ssa.Value]constant.Value) (constant.Value, bool) {
